@@ -19,7 +19,8 @@ RULE = ("base cases: SpecializedRayTracer and BasicRayTracer (dz 2..8) in Antarc
         "exponential ice, UniformRayTracer with max_reflections 0..3 in random UniformIce (None guards), LayeredRayTracer "
         "on uniform+exponential and uniform stacks; endpoints from direct-only to shadowed separations, source above and "
         "below, plus shadow-zone pairs (two shallow far-apart points; for the layered tracer both in one exponential "
-        "layer); each base case is re-run under a random rotation about z, a horizontal translation up to 1e5 m and the "
+        "layer), exactly vertical pairs (rho == 0) and pairs in the near-vertical band rho < 0.003 |dz|, and integer-valued "
+        "endpoints handed over as Python ints / int lists / int64 arrays; each base case is re-run under a random rotation about z, a horizontal translation up to 1e5 m and the "
         "swap; a case is non-trivial when the base geometry has at least one solution; distinct = distinct "
         "(tracer, ice, endpoints, motion) tuples")
 LEVEL_TEXT = ("rigid-motion invariance of rho and covariance of (cos phi, sin phi), factorisation of a gradient-index "
@@ -36,8 +37,10 @@ LEVEL_NOTE = ("brentq is not modelled (C02_zero_or_two and C02_exists_iff_nonemp
               "oracle stay abstract; uniform and layered attenuation is a left Riemann sum, reciprocal only up to step x "
               "variation of 1/L_att (C02_uniform_atten_reciprocity; the model's nodes and step reproduce the implementation's "
               "attenuation to 1e-9 on every uniform path), which is the tolerance used; "
-              "Fresnel products are direction dependent and not part of the property; the near-vertical band rho < "
-              "0.02 |dz| of the gradient tracers (finding K3 of C01) is not sampled")
+              "Fresnel products are direction dependent and not part of the property; in the near-vertical band of the "
+              "gradient tracers (finding K3 of C01: inaccurate launch angle) count, exists, length, tof, directions and the "
+              "symmetry relations are checked on exactly vertical pairs and on rho < 0.003 |dz|; the band 0.003 |dz| < rho < "
+              "0.02 |dz| + 1 m is not sampled")
 ASSUMPTIONS = ["decisions rho < direct_r_max / indirect_r_max within 1e-6 relative of the threshold are not compared "
                "(a 1e-11 m change of rho under a 1e5 m translation may flip them)"]
 FREQS = np.array([1e8, 2e8, 3.5e8, 6e8, 1e9])
@@ -86,10 +89,24 @@ def make_ice(desc):
     raise ValueError(k)
 
 
+def as_form(P, form):
+    """integer-VALUED coordinates handed over as Python ints / int lists / int64 arrays; anything else as floats"""
+    if not form or any(float(v) != int(v) for v in P):
+        return [float(v) for v in P]
+    if form == "int-tuple":
+        return tuple(int(v) for v in P)
+    if form == "int-list":
+        return [int(v) for v in P]
+    if form == "int64":
+        return np.array([int(v) for v in P], dtype=np.int64)
+    raise ValueError(form)
+
+
 def make_tracer(desc, A, B, ice=None):
     rt, im, LayeredIce, LayeredRayTracer = _mods()
     ice = ice if ice is not None else make_ice(desc)
     t = desc["tracer"]
+    A, B = as_form(A, desc.get("form")), as_form(B, desc.get("form"))
     if t == "spec":
         return rt.SpecializedRayTracer(A, B, ice)
     if t == "basic":
@@ -134,9 +151,54 @@ def shadow_case(run, tracer):
     return d
 
 
+def vertical_case(run, tracer):
+    """exactly vertical pairs (identical x, y: rho == 0, launch angle exactly 0 or pi) and pairs in the near-vertical band
+    rho < 0.003 |dz| (K3 of C01: the launch angle is inaccurate there, count / length / tof / symmetry are not)"""
+    d = rand_case(run, tracer)
+    r = run.rng
+    zA, zB = d["A"][2], d["B"][2]
+    if tracer in ("spec", "basic") and not (-2800 < zA < 0):
+        zA = -r.uniform(20, 900)
+    if abs(zA - zB) < 3:
+        zB = zA - 40.0 if zA > -500 else zA + 40.0
+    rho = 0.0 if r.random() < 0.6 else abs(zA - zB) * 10 ** r.uniform(-6, -2.6)
+    az = r.uniform(0, 2 * math.pi)
+    d["A"][2] = zA
+    d["B"] = [d["A"][0] + rho * math.cos(az), d["A"][1] + rho * math.sin(az), zB] if rho else [d["A"][0], d["A"][1], zB]
+    d["flavour"] = "vertical"
+    return d
+
+
+def intform_case(run, tracer):
+    """integer-valued endpoints handed to the tracer as Python ints / int lists / int64 arrays"""
+    for attempt in range(50):
+        d = rand_case(run, tracer)
+        if tracer == "uniform" and d["max_reflections"] == 0:
+            d["max_reflections"] = run.rng.choice([1, 2, 3])
+        A, B = [float(round(v)) for v in d["A"]], [float(round(v)) for v in d["B"]]
+        edges = []
+        if tracer == "uniform":
+            edges = list(d["range"])
+            if not (edges[0] + 1 < A[2] < edges[1] - 1 and edges[0] + 1 < B[2] < edges[1] - 1):
+                continue
+        if tracer == "layered":
+            edges = [z for l in d["layers"] for z in l["range"]]
+        if any(abs(A[2] - z) < 1.2 or abs(B[2] - z) < 1.2 for z in edges):
+            continue
+        if (A[0], A[1]) == (B[0], B[1]):
+            continue
+        d.update(A=A, B=B, flavour="intform", form=run.rng.choice(["int-tuple", "int-list", "int64"]))
+        return d
+    raise RuntimeError("no integer-valued case")
+
+
 def rand_case(run, tracer, flavour=None):
     if flavour == "shadow":
         return shadow_case(run, tracer)
+    if flavour == "vertical":
+        return vertical_case(run, tracer)
+    if flavour == "intform":
+        return intform_case(run, tracer)
     r = run.rng
     d = {"tracer": tracer}
     if tracer in ("spec", "basic"):
@@ -245,7 +307,9 @@ def cancellation_noise(path):
     beta = abs(float(path.beta))
     ze = max(min(float(path.z0), float(path.z1)), float(path.z_uniform), float(ice.valid_range[0]))
     dn = float(ice.n0) - float(ice.index(ze))
-    if beta <= 0 or dn <= 0:
+    if beta < 0.005:
+        return 0.0      # beta_tolerance: the near-vertical branch of the closed forms has no logarithm, no cancellation
+    if dn <= 0:
         return float("inf")
     return EPS * float(ice.n0) ** 2 / (float(ice.a) * beta ** 2 * dn ** 2)
 
@@ -280,7 +344,8 @@ def _record(tr, desc):
         for p in sols:
             s = {"len": float(p.path_length), "tof": float(p.tof), "att": fls(p.attenuation(FREQS)),
                  "emitted": fls(p.emitted_direction), "received": fls(p.received_direction), "phi": float(p.phi),
-                 "bound": fls(riemann_bound(p)), "noise": cancellation_noise(p)}
+                 "bound": fls(riemann_bound(p)), "noise": cancellation_noise(p),
+                 "k3": desc.get("flavour") == "vertical" and float(tr.rho) > 0}
             if desc["tracer"] in ("spec", "basic"):
                 s["theta0"], s["direct"] = float(p.theta0), bool(p.direct)
             if desc["tracer"] == "uniform":
@@ -303,6 +368,14 @@ def same_solution(b, o, want_e, want_r, att_tol):
     0.01x their estimated cancellation noise (K9)."""
     E = max(b["noise"], o["noise"])
     L = max(b["len"], 1e-3)
+    if b.get("k3") or o.get("k3"):
+        # near-vertical band (K3 of C01, rho > 0): path length / tof are the vertical ones (relative error <= (rho/dz)^2/2
+        # < 5e-6), directions are off by up to beta_tolerance / n; count, exists, and these coarse values must still agree
+        if not fw.close(b["len"], o["len"], 1e-5, 1e-8) or not fw.close(b["tof"], o["tof"], 1e-5, 0):
+            return "near-vertical path length / tof %r/%r vs %r/%r" % (b["len"], b["tof"], o["len"], o["tof"])
+        if not vec_close(o["emitted"], want_e, 0.01) or not vec_close(o["received"], want_r, 0.01):
+            return "near-vertical directions %s %s, expected %s %s" % (o["emitted"], o["received"], want_e, want_r)
+        return None
     if not fw.close(b["len"], o["len"], 1e-8, 1e-8 + 25 * E):
         return "path length %r vs %r (allowed closed-form noise %.3g m)" % (b["len"], o["len"], 25 * E)
     if not fw.close(b["tof"], o["tof"], 1e-8, 25 * E / L * b["tof"]):
@@ -413,7 +486,11 @@ def budget(run):
     return [("spec", None, run.scale(120, 1500)), ("basic", None, run.scale(25, 250)), ("uniform", None, run.scale(100, 1500)),
             ("layered", None, run.scale(10, 100)),
             ("spec", "shadow", run.scale(10, 100)), ("basic", "shadow", run.scale(3, 30)),
-            ("layered", "shadow", run.scale(8, 80))]
+            ("layered", "shadow", run.scale(8, 80)),
+            ("spec", "vertical", run.scale(12, 120)), ("basic", "vertical", run.scale(5, 50)),
+            ("layered", "vertical", run.scale(3, 30)),
+            ("uniform", "intform", run.scale(12, 120)), ("layered", "intform", run.scale(4, 40)),
+            ("spec", "intform", run.scale(4, 40))]
 
 
 def correspondence(run):
